@@ -51,3 +51,14 @@ package imageblk
 //@   invariant loop 5: vol && blockZ == blockBegZ + (dataZ - z0) && zcount == dataZ - z0 && (nz >= 1 ==> dataZ <= z0 + nz)
 //@   invariant loop 6: vol && blockZ == blockBegZ + (dataZ - z0) && zcount == dataZ - z0 && dataZ < z0 + nz && blockY == blockBegY + (dataY - y0) && dataY >= y0 && (ny >= 1 ==> dataY <= y0 + ny) && rows == rowsAtZ + (dataY - y0)
 //@   assert at "return nil": vol && nz >= 1 ==> zcount == nz
+
+// GetBlocks (C20): the buffer for `span` blocks is allocated only for a non-negative span whose byte count
+// fits (no int32 wrap-around of block bytes * span) - otherwise the request is refused with an error
+// instead of reaching make() with a negative length (a recovered panic, status 500).
+//@ func Data.GetBlocks
+//@   prop C20
+//@   requires d != nil
+//@   safety_off
+//@   requires_off
+//@   modifies *
+//@   assert at "buf := make([]byte, numBytes, numBytes)": span >= 0 && numBytes >= 0 && int64(numBytes) == int64(blockBytes) * int64(span)
